@@ -206,6 +206,89 @@ func runC03(r *mon.Run) {
 		}
 	})
 
+	// --- near-equal pairs for the observers: distinct points that agree in one
+	// coordinate or in a small linear combination a*x + b*y of the coordinates
+	// (the second and third intersection of a line of slope -a/b through P).
+	// An Equal that merges its two cross-multiplied comparisons (sums the
+	// differences, compares only X, only Y, ...) answers 1 on exactly such pairs,
+	// in every projective representative.
+	r.Require("c03:near-equal:same-y", "c03:near-equal:same-x", "c03:near-equal:collinear")
+	r.Each("c03/near-equal", r.N(1200, 60000), func(w *mon.W, i int) {
+		rng := w.Rng
+		base := oracle.MulG(rng.Below(bigN))
+		if rng.Chance(1, 4) {
+			base = pool[1+rng.Intn(np-1)].P
+		}
+		if base.Inf || base.X.Sign() == 0 {
+			return
+		}
+		var Q *oracle.Pt
+		cls := ""
+		switch i % 6 {
+		case 0:
+			Q, cls = oracle.Neg(base), "same-x"
+		case 1:
+			// endomorphism image (beta*x, y): same y, different x
+			beta := oracle.ExpM(big.NewInt(2), new(big.Int).Div(new(big.Int).Sub(bigP, big.NewInt(1)), big.NewInt(3)), bigP) // a primitive cube root of unity (2 is not a cube mod p, checked below)
+			if beta.Cmp(big.NewInt(1)) == 0 {
+				return
+			}
+			if rng.Bool() {
+				beta = oracle.MulM(beta, beta, bigP)
+			}
+			Q, cls = &oracle.Pt{X: oracle.MulM(beta, base.X, bigP), Y: new(big.Int).Set(base.Y)}, "same-y"
+		default:
+			// line through base with slope m = -a/b
+			ab := [][2]int64{{1, 1}, {1, -1}, {1, 2}, {2, 1}, {1, 3}, {3, -1}, {1, -2}, {2, -1}}[rng.Intn(8)]
+			m := oracle.MulM(oracle.NegM(big.NewInt(ab[0]), bigP), oracle.InvM(oracle.Mod(big.NewInt(ab[1]), bigP), bigP), bigP)
+			c := oracle.SubM(base.Y, oracle.MulM(m, base.X, bigP), bigP)
+			S := oracle.SubM(oracle.MulM(m, m, bigP), base.X, bigP)
+			T := oracle.MulM(oracle.SubM(oracle.MulM(c, c, bigP), big.NewInt(7), bigP), oracle.InvM(base.X, bigP), bigP)
+			disc := oracle.SubM(oracle.MulM(S, S, bigP), oracle.MulM(big.NewInt(4), T, bigP), bigP)
+			if !oracle.IsSquareP(disc) {
+				return // the line meets the curve in no other rational point
+			}
+			sq := oracle.SqrtP(disc)
+			if rng.Bool() {
+				sq = oracle.NegM(sq, bigP)
+			}
+			xq := oracle.MulM(oracle.AddM(S, sq, bigP), oracle.InvM(big.NewInt(2), bigP), bigP)
+			Q = &oracle.Pt{X: xq, Y: oracle.AddM(oracle.MulM(m, oracle.SubM(xq, base.X, bigP), bigP), base.Y, bigP)}
+			cls = "collinear"
+			if Q.Eq(base) {
+				return // tangent line
+			}
+		}
+		if !oracle.OnCurve(Q) {
+			w.Fail("c03/oracle", "harness: constructed near-equal point is not on the curve", "P", base, "Q", Q)
+			return
+		}
+		if Q.Eq(base) {
+			return
+		}
+		w.Class("c03:near-equal:" + cls)
+		zp, _ := repZ(rng)
+		zq, _ := repZ(rng)
+		lp, lq := pointRep(base, zp), pointRep(Q, zq)
+		w.Case(true, []byte("near-equal"), []byte(cls), oracle.EncodeCompressed(base), oracle.EncodeCompressed(Q), b32(zp), b32(zq))
+		det := []any{"P", base, "Q", Q, "zp", hb(zp), "zq", hb(zq), "class", cls}
+		if g := lp.Equal(lq); g != 0 {
+			w.Fail("c03/Equal/near-equal:"+cls, fmt.Sprintf("Equal = %d for two DISTINCT points (%s)", g, cls), det...)
+		}
+		if g := lq.Equal(lp); g != 0 {
+			w.Fail("c03/Equal/near-equal:"+cls, fmt.Sprintf("Equal (swapped) = %d for two DISTINCT points (%s)", g, cls), det...)
+		}
+		if msg := expectPoint(new(Point).Add(lp, lq), oracle.Add(base, Q)); msg != "" {
+			w.Fail("c03/Add/near-equal:"+cls, "Add ("+cls+"): "+msg, det...)
+		}
+		if msg := expectPoint(new(Point).Subtract(lp, lq), oracle.Sub(base, Q)); msg != "" {
+			w.Fail("c03/Subtract/near-equal:"+cls, "Subtract ("+cls+"): "+msg, det...)
+		}
+		if i < 3 {
+			w.Sample(map[string]any{"monitor": "near-equal", "class": cls, "P": base.String(), "Q": Q.String()})
+		}
+	})
+
 	unops := []string{"Double", "Negate", "CondNegate", "Set", "NewPointFrom", "doubleComplete", "observers"}
 	r.Require("c03:un:inf", "c03:un:odd-y", "c03:un:even-y")
 	r.Each("c03/unary", np*r.N(4, 24), func(w *mon.W, i int) {
